@@ -342,6 +342,41 @@ def related_regexps_described(rng, syms, describe):
             Ca(St(x), y), Ca(y, St(x)), St(Ca(x, y)), Su(Ca(x, y), Ca(y, x)), Su(Su(x, y), x), Ca(Su(x, y), x), Su(Ca(x, y), y)]
 
 
+def prefix_regexps_described(rng, syms, describe):
+    """PREFIX-related operands: x = l1 op l2 (op l3), y = the same chain continued by one or two more leaves, each
+    associated to the left or to the right; composed like the related trees (x* . y*, x* + y*, x . y, ...).  An
+    equality test that compares flattened operand lists only as far as the shorter one goes takes x for y"""
+    from gambatools import regexp as R
+    op = rng.choice(["sum", "cat"])
+    mk = R.Sum if op == "sum" else R.Concat
+    k = rng.randint(2, 3)
+    leaves = [rng.choice(list(syms) + ["1"]) for _ in range(k + rng.randint(1, 2))]
+
+    def leaf(c):
+        return (R.One(), ["one"]) if c == "1" else (R.Symbol(c), ["sym", c])
+
+    def chain(ls, left):
+        items = [leaf(c) for c in ls]
+        if left:
+            acc = items[0]
+            for it in items[1:]:
+                acc = (mk(acc[0], it[0]), [op, acc[1], it[1]])
+        else:
+            acc = items[-1]
+            for it in reversed(items[:-1]):
+                acc = (mk(it[0], acc[0]), [op, it[1], acc[1]])
+        return acc
+    x = chain(leaves[:k], rng.random() < 0.5)
+    y = chain(leaves, rng.random() < 0.5)
+    if rng.random() < 0.5:
+        x, y = y, x
+    St = lambda x: (R.Iteration(x[0]), ["star", x[1]])                      # noqa
+    Su = lambda x, y: (R.Sum(x[0], y[0]), ["sum", x[1], y[1]])             # noqa
+    Ca = lambda x, y: (R.Concat(x[0], y[0]), ["cat", x[1], y[1]])          # noqa
+    return [Ca(St(x), St(y)), Su(St(x), St(y)), Su(x, y), Ca(x, y), St(Su(x, y)), Su(St(x), y), Ca(St(x), y),
+            Ca(y, St(x)), St(Ca(St(x), St(y)))]
+
+
 # ------------------------------------------------------------------ CFG
 # multi-character variable names (legal: a Variable is any string): prefixes of each other, concatenations of
 # each other, digits / underscores / primes as the library's own fresh names have them
